@@ -30,6 +30,7 @@ import (
 	"go/ast"
 	goparser "go/parser"
 	"go/token"
+	"math"
 	"os"
 	"os/exec"
 	"reflect"
@@ -549,6 +550,122 @@ func loadAll(vm data.VM) {
 	system.Load(vm)
 }
 
+// floatlitMode: float round trip.  For each float64 bit pattern (16 hex digits) the REAL emitter of data.FloatValue
+// prints its Go expression; the expression is evaluated the way the Go compiler would (float64(<literal>) through
+// strconv.ParseFloat, math.NaN(), math.Inf(±1), math.Copysign(0, -1), a bare literal) and must give back exactly the
+// same bits (any NaN for a NaN).
+func floatlitMode(hexes []string) []map[string]any {
+	var res []map[string]any
+	for _, h := range hexes {
+		bits, err := strconv.ParseUint(h, 16, 64)
+		if err != nil {
+			res = append(res, map[string]any{"hex": h, "status": "bad-input"})
+			continue
+		}
+		f := math.Float64frombits(bits)
+		text, eerr := compile.VerifEmit(data.NewFloatValue(f), "floatlit.php", "")
+		r := map[string]any{"hex": h}
+		if eerr != nil {
+			r["status"], r["emitted"] = "error", eerr.Error()
+			res = append(res, r)
+			continue
+		}
+		got, ok := evalFloatExpr(text)
+		switch {
+		case !ok:
+			r["status"], r["emitted"] = "unreadable", text
+		case math.IsNaN(f) && math.IsNaN(got):
+			r["status"] = "ok"
+		case math.Float64bits(got) == bits:
+			r["status"] = "ok"
+		default:
+			r["status"], r["emitted"], r["got"] = "differs", text, fmt.Sprintf("%016x", math.Float64bits(got))
+		}
+		res = append(res, r)
+	}
+	return res
+}
+
+// evalFloatExpr evaluates data.NewFloatValue(<arg>) for the argument forms a float emitter can reasonably print
+func evalFloatExpr(text string) (float64, bool) {
+	e, err := goparser.ParseExpr(text)
+	if err != nil {
+		return 0, false
+	}
+	call, ok := e.(*ast.CallExpr)
+	if !ok || len(call.Args) != 1 {
+		return 0, false
+	}
+	return evalFloatArg(call.Args[0])
+}
+
+func evalFloatArg(a ast.Expr) (float64, bool) {
+	switch x := a.(type) {
+	case *ast.ParenExpr:
+		return evalFloatArg(x.X)
+	case *ast.BasicLit:
+		// a bare INT literal in a float64 parameter position is an exact integer constant converted to float64
+		v, err := strconv.ParseFloat(strings.ReplaceAll(x.Value, "_", ""), 64)
+		return v, err == nil
+	case *ast.UnaryExpr:
+		v, ok := evalFloatArg(x.X)
+		if !ok {
+			return 0, false
+		}
+		if x.Op == token.SUB {
+			if _, isLit := x.X.(*ast.BasicLit); isLit && v == 0 {
+				return 0, true // -0 / -0.0 as a Go CONSTANT expression is +0: the sign is lost
+			}
+			return -v, true
+		}
+		return v, x.Op == token.ADD
+	case *ast.CallExpr:
+		fn := ""
+		if id, ok := x.Fun.(*ast.Ident); ok {
+			fn = id.Name
+		} else if se, ok := x.Fun.(*ast.SelectorExpr); ok {
+			if id, ok := se.X.(*ast.Ident); ok {
+				fn = id.Name + "." + se.Sel.Name
+			}
+		}
+		switch fn {
+		case "float64":
+			if len(x.Args) == 1 {
+				return evalFloatArg(x.Args[0])
+			}
+		case "math.NaN":
+			return math.NaN(), true
+		case "math.Inf":
+			if len(x.Args) == 1 {
+				s, ok := evalFloatArg(x.Args[0])
+				if ok && s >= 0 {
+					return math.Inf(1), true
+				}
+				return math.Inf(-1), ok
+			}
+		case "math.Copysign":
+			if len(x.Args) == 2 {
+				m, ok1 := evalFloatArg(x.Args[0])
+				sg, ok2 := evalFloatArg(x.Args[1])
+				if un, isUn := x.Args[1].(*ast.UnaryExpr); isUn && un.Op == token.SUB {
+					if v, ok := evalFloatArg(un.X); ok && v != 0 {
+						sg = -v
+					}
+				}
+				return math.Copysign(m, sg), ok1 && ok2
+			}
+		case "math.Float64frombits":
+			if len(x.Args) == 1 {
+				if bl, ok := x.Args[0].(*ast.BasicLit); ok {
+					u, err := strconv.ParseUint(bl.Value, 0, 64)
+					return math.Float64frombits(u), err == nil
+				}
+			}
+		}
+	}
+	return 0, false
+}
+
 // loadersMode: which names does each standard-library loader register, and with which Go type?  VM.AddClass /
 // AddFunc keep the FIRST registration of a name, so a name registered by two loaders means the ORDER of the
 // loaders (generated main.go vs the interpreter's zy.go) decides which implementation a program gets.
@@ -948,6 +1065,8 @@ func main() {
 			out(map[string]any{"strlit": strlitMode(rq.Hex)})
 		case "loaders":
 			out(map[string]any{"loaders": loadersMode()})
+		case "floatlit":
+			out(map[string]any{"floatlit": floatlitMode(rq.Hex)})
 		default:
 			out(map[string]any{"err": "unknown mode"})
 		}
